@@ -3,16 +3,20 @@
 pub assume_specification<T: PartialEq> [ <[T]>::contains ] (s: &[T], x: &T) -> (b: bool)
   ensures b == s@.contains(*x);
 use vstd::std_specs::hash::*;
+//#if key_codes
 use crate::key_codes::KeyCode;
+//#endif
 #[verifier::external_body]
 pub proof fn axiom_vec_len_isize<T>(v: &Vec<T>)
   ensures v@.len() <= isize::MAX
 {}
 
+//#if key_codes
 #[verifier::external_body]
 pub proof fn axiom_keycode_key_model()
   ensures obeys_key_model::<KeyCode>()
 {}
+//#endif
 
 pub uninterp spec fn borrowed_key_updated<K, V, Q: ?Sized>(old_m: Map<K, V>, new_m: Map<K, V>, k: &Q, v: V) -> bool;
 
